@@ -60,6 +60,7 @@ def ctxSps (d : List UInt8) : Nat → Nat → Ctx.PMap Sps.Sps → Except CtxErr
     | .error e => .error e
     | .ok (nal, next) =>
       match Sps.parseSps (NalSrc.srcOfNal [nal] true) with
+      | .error (.panic t) => .error (.panic t)
       | .error _ => .error .sps
       | .ok (s, _) => ctxSps d n next (Ctx.put m s.spsId s)
 
@@ -71,6 +72,7 @@ def ctxPps (d : List UInt8) (spsMap : Ctx.PMap Sps.Sps) : Nat → Nat → Ctx.PM
     | .error e => .error e
     | .ok (nal, next) =>
       match Pps.parsePps (Ctx.get spsMap) (NalSrc.srcOfNal [nal] true) with
+      | .error (.panic t) => .error (.panic t)
       | .error _ => .error .pps
       | .ok (p, _) => ctxPps d spsMap n next (Ctx.put m p.ppsId p)
 
@@ -91,5 +93,79 @@ def createContext (d : List UInt8) : Except CtxErr Context :=
           match ctxPps d sm np (off + 1) [] with
           | .error e => .error e
           | .ok pm => .ok ⟨sm, pm⟩
+
+end Avcc
+
+namespace Avcc
+
+theorem walk_noPanic (d : List UInt8) (n pos : Nat) : (walk d n pos).isPanic = false := by
+  induction n generalizing pos with
+  | zero => simp [walk, Res.isPanic]
+  | succ n ih =>
+    simp only [walk, bind, Res.bind]
+    cases hc : ck d (pos + 2) with
+    | ok u =>
+      simp only
+      have h2 : pos + 2 ≤ d.length := (ck_ok_iff _ _).mp (by rw [hc])
+      obtain ⟨hi, hhi, _⟩ := idx_ok d pos (by omega)
+      obtain ⟨lo, hlo, _⟩ := idx_ok d (pos+1) (by omega)
+      rw [hhi, hlo]; simp only
+      cases hc2 : ck d (pos + 2 + (hi * 256 + lo)) with
+      | ok u2 => exact ih _
+      | notEnoughData a b => rfl
+      | unsupportedVersion v => rfl
+      | paramSetErr t => rfl
+      | panic t => unfold ck at hc2; split at hc2 <;> cases hc2
+    | notEnoughData a b => rfl
+    | unsupportedVersion v => rfl
+    | paramSetErr t => rfl
+    | panic t => unfold ck at hc; split at hc <;> cases hc
+
+/-- construction never panics, on any bytes: every index is preceded by its length check -/
+theorem tryFrom_noPanic (d : List UInt8) : (tryFrom d).isPanic = false := by
+  unfold tryFrom
+  simp only [bind, Res.bind]
+  cases hc : ck d 6 with
+  | ok u =>
+    simp only
+    have h6 : 6 ≤ d.length := (ck_ok_iff _ _).mp (by rw [hc])
+    obtain ⟨v, hv, _⟩ := idx_ok d 0 (by omega)
+    rw [hv]; simp only
+    by_cases hv1 : v ≠ 1
+    · simp [hv1, Res.isPanic]
+    · simp only [hv1, ↓reduceIte]
+      unfold spsEnd numSps
+      simp only [bind, Res.bind]
+      obtain ⟨b5, h5, _⟩ := idx_ok d 5 (by omega)
+      rw [h5]; simp only [pure]
+      have hw := walk_noPanic d (b5 % 32) 6
+      cases hwalk : walk d (b5 % 32) 6 with
+      | ok len =>
+        simp only
+        cases hc2 : ck d (len + 1) with
+        | ok u2 =>
+          simp only
+          have hl : len + 1 ≤ d.length := (ck_ok_iff _ _).mp (by rw [hc2])
+          obtain ⟨np, hnp, _⟩ := idx_ok d len (by omega)
+          rw [hnp]; simp only
+          have hw2 := walk_noPanic d np (len + 1)
+          cases hwalk2 : walk d np (len + 1) with
+          | ok e => rfl
+          | notEnoughData a b => rfl
+          | unsupportedVersion v => rfl
+          | paramSetErr t => rfl
+          | panic t => rw [hwalk2] at hw2; simp [Res.isPanic] at hw2
+        | notEnoughData a b => rfl
+        | unsupportedVersion v => rfl
+        | paramSetErr t => rfl
+        | panic t => unfold ck at hc2; split at hc2 <;> cases hc2
+      | notEnoughData a b => rfl
+      | unsupportedVersion v => rfl
+      | paramSetErr t => rfl
+      | panic t => rw [hwalk] at hw; simp [Res.isPanic] at hw
+  | notEnoughData a b => rfl
+  | unsupportedVersion v => rfl
+  | paramSetErr t => rfl
+  | panic t => unfold ck at hc; split at hc <;> cases hc
 
 end Avcc
